@@ -12,6 +12,7 @@ func init() {
 			ruleWASpec(c, "S")
 			ruleWANewPure(c)
 			ruleBTSentinel(c)
+			ruleRecList(c)
 		})
 
 	register("C03",
